@@ -54,7 +54,7 @@ CONFIGS_THOROUGH = CONFIGS_QUICK + [
     ('block2,dispatch', 'r1,r2,inf'),
     ('block1,block2', 'r1,r2,x,inf'),
     ('call3,call4', 'r3,r4,wrap'),
-    ('call3,call4', 'r4,inf'),
+    ('call3,call4', 'r3,r4,inf'),
     ('call3,block1', 'r1,r3,wrap'),
     ('call3,cancel1', 'r1,r3'),
     ('call3,close', 'r3'),
@@ -139,7 +139,8 @@ def judge(bodies, env, sched, r, free=False):
     if len(set(ser)) != len(ser):
         v('serial-reused', 'threads', 'two messages sent on the connection were given the same serial (serials handed out: %s)' % ser)
     for b in bl:
-        if b.startswith('call') and int(b[4]) not in r['calls']:
+        # (on a connection that another thread has closed first, send_with_reply legitimately hands out no pending call)
+        if b.startswith('call') and int(b[4]) not in r['calls'] and not closing and r['envdone'][3] != '1':      # ('x': the peer hung up)
             v('call-not-made', 'threads', 'thread body %s did not obtain a pending call' % b)
     for i, c in sorted(r['calls'].items()):
         rep = c['reply']
